@@ -78,6 +78,7 @@ type Stats struct {
 // Net is the per-run network state.
 type Net struct {
 	P         Params
+	lastDialCut bool
 	LastIO    time.Duration // simulated instant of the last byte written or read
 	listeners map[string]*Listener
 	conns     []*Pair
@@ -88,12 +89,13 @@ type Net struct {
 	Tap       func(conn int, dir int, data []byte) // observes every written segment (wire monitor)
 	TapRead   func(conn int, dir int, data []byte) // observes bytes as the receiving endpoint reads them
 	OnConn    func(p *Pair)
-	OnDial    func(start, end time.Duration, ok bool) // every dial attempt with its simulated start/end time
+	OnDial    func(start, end time.Duration, ok, cut bool) // every dial attempt with its simulated start/end time; cut: connected, to be reset inside its handshake
 }
 
 type dialFault struct {
 	refuse  int // refuse next n dials (-1 = until cleared)
 	timeout int // black-hole next n dials
+	cut     int // the next n dials connect, and the connection is reset with the first byte the client writes
 }
 
 var cur *Net
@@ -126,6 +128,10 @@ func (n *Net) AddFault(f Fault) { n.faults = append(n.faults, &f) }
 
 // RefuseDials makes the next k dials to addr fail with ECONNREFUSED (k<0: until cleared).
 func (n *Net) RefuseDials(addr string, k int) { n.df(addr).refuse = k }
+
+// CutHandshakes lets the next k dials to addr connect and resets each of those connections with the
+// first byte its client writes: a peer (or a middlebox) that accepts TCP and then fails the handshake.
+func (n *Net) CutHandshakes(addr string, k int) { n.df(addr).cut = k }
 
 // TimeoutDials black-holes the next k dials to addr (they end at the dialer's timeout).
 func (n *Net) TimeoutDials(addr string, k int) { n.df(addr).timeout = k }
@@ -268,9 +274,11 @@ func DialContext(d *net.Dialer, ctx context.Context, network, address string) (n
 		return nil, errors.New("simnet: no network")
 	}
 	start := simrt.Now()
+	n.lastDialCut = false
 	c, err := dialContext(n, d, ctx, network, address)
 	if n.OnDial != nil {
-		n.OnDial(start, simrt.Now(), err == nil)
+		// a connection that is going to be cut inside its handshake counts as a failed attempt
+		n.OnDial(start, simrt.Now(), err == nil && !n.lastDialCut, err == nil && n.lastDialCut)
 	}
 	return c, err
 }
@@ -346,6 +354,12 @@ func dialContext(n *Net, d *net.Dialer, ctx context.Context, network, address st
 	l.backlog = append(l.backlog, p.S)
 	l.conns = append(l.conns, p.S)
 	simrt.Logf("net connected conn=%d %s", p.ID, address)
+	if df := n.dialFault[address]; df != nil && df.cut > 0 {
+		df.cut--
+		n.fired("handshake-cut")
+		n.lastDialCut = true
+		n.faults = append(n.faults, &Fault{Conn: p.ID, Dir: 0, AtByte: 1, Kind: FaultRST})
+	}
 	if n.OnConn != nil {
 		n.OnConn(p)
 	}
